@@ -2,7 +2,7 @@
 import random
 from fractions import Fraction
 from . import core, sketchcheck
-from .sketchgen import Builder, mapspec, STORES, rand_values
+from .sketchgen import Builder, mapspec, STORES, rand_values, spec_list
 from .core import f2h
 
 def build(rng, facts, name, pair=None):
@@ -11,12 +11,13 @@ def build(rng, facts, name, pair=None):
     ws = [rng.choice([None, None, None, 2.0, 0.5, 0.25]) for _ in vals]
     kinds = lambda: (pair if pair else (rng.choice(STORES), rng.choice(STORES)))
     kw = rng.choice(STORES), rng.choice(STORES)
-    b.knew("whole", spec, kw[0], kw[1])
+    exact = rng.random() < 0.3          # both variants: the exact one also merges its statistics (min/max/count of the union, a cleared part contributes nothing)
+    b.knew("whole", spec, kw[0], kw[1], exact)
     for v, w in zip(vals, ws): b.kadd("whole", v, w)
     nparts = rng.randint(1, 6); parts = ["p%d" % i for i in range(nparts)]
     for i, p in enumerate(parts):
-        if pair: b.knew(p, spec, pair[i % 2], pair[i % 2])
-        else: b.knew(p, spec, rng.choice(STORES), rng.choice(STORES))
+        if pair: b.knew(p, spec, pair[i % 2], pair[i % 2], exact)
+        else: b.knew(p, spec, rng.choice(STORES), rng.choice(STORES), exact)
         if rng.random() < 0.15:                        # a cleared part
             b.kadd(p, 3.0); b.kadd(p, -3.0); b.kadd(p, 0.0); b.kclear(p)
     for v, w in zip(vals, ws): b.kadd(rng.choice(parts), v, w)
@@ -38,19 +39,25 @@ def build(rng, facts, name, pair=None):
     r = live[0]
     for c, j0 in args: b.emit("kobs " + c, ("same", j0))
     if rng.random() < 0.3:                              # merging an empty sketch is a no-op
-        b.knew("e", spec, rng.choice(STORES), rng.choice(STORES)); j0 = b.emit("kobs " + r); b.kmerge(r, "e"); b.emit("kobs " + r, ("same", j0))
+        b.knew("e", spec, rng.choice(STORES), rng.choice(STORES), exact); j0 = b.emit("kobs " + r); b.kmerge(r, "e"); b.emit("kobs " + r, ("same", j0))
     # the merged sketch and the single sketch are observationally identical: same bins (the store kinds differ, the content may not)
     jw = b.emit("kobs whole"); b.emit("kobs " + r, ("same", jw))
     if vals:
         for q in [0.0, 1.0, 0.5] + [rng.random() for _ in range(8)]:
             jq = b.emit("q whole %s" % f2h(q)); b.emit("q %s %s" % (r, f2h(q)), ("same", jq))
     jf = b.emit("kforeach whole 0"); b.emit("kforeach %s 0" % r, ("same", jf))
+    if exact:
+        def same_stats(a, env, impl):          # count, min, max exactly; the compensated sums of different association orders agree to a few ulps
+            fa = dict(x.split("=") for x in a.split()); fw = dict(x.split("=") for x in impl[jsw].split())
+            if (fa["count"], fa["min"], fa["max"]) != (fw["count"], fw["min"], fw["max"]): return "exact statistics of the merged sketch %r differ from the single sketch's %r" % (a, impl[jsw])
+            return None
+        jsw = b.emit("kstats whole"); b.emit("kstats " + r, same_stats)
     return b
 
 def run(tier, seed):
     rng = random.Random(seed)
     ok, log = core.build_vrun()
-    specs = [mapspec(rng)[0] for _ in range(10 if tier == "quick" else 40)]
+    specs = spec_list(rng, 10 if tier == "quick" else 40)
     facts = sketchcheck.learn_specs("C02", specs) if ok else {}
     builders = []
     if facts:
